@@ -132,7 +132,9 @@ func (a *authRun) hello(st authStep) {
 		tokSalt = a.tok(b[:ss])
 	}
 	a.forms[form]++
-	a.emit(ev{"ev": "Hello", "c": st.C, "k": ac.k, "t": tokSalt, "form": form, "conn": id, "len": len(b)})
+	// k = index in the model's key list (the padding keys, under which no client ever speaks, are not part of the trace
+	// specification's constant key list); rk = position in the real, padded list
+	a.emit(ev{"ev": "Hello", "c": st.C, "k": st.K, "rk": ac.k, "t": tokSalt, "form": form, "conn": id, "len": len(b)})
 	cl.send(b)
 	ac.sentAt = time.Now()
 	// the decision follows at once for >= 50 bytes
